@@ -190,7 +190,7 @@ func checkInsertion(src []byte, v px.Ver, in insertion) insertionResult {
 	} else {
 		at = endOfList(owner, good.Root, src)
 	}
-	if at < 0 {
+	if at < 0 || !phpModeAt(good.Root, at) {
 		res.skipped = true
 		return res
 	}
@@ -246,7 +246,7 @@ func TestInsertedMalformedStatement(t *testing.T) {
 	harness.Check(t, "inserted-statement", 25000, 800000, func(rt *rapid.T) {
 		v := rapid.SampledFrom(px.KeyVersions).Draw(rt, "version")
 		o := progs.StructuralOptions(v)
-		o.NoHTML, o.NoHalt = true, true
+		o.NoHalt = true
 		c := progs.Draw(rt, v, o, 1, 5)
 		lay := c.G.Render(c.Root, progs.Policy(rt, phpgen.PolicySpace, nil))
 		src := append([]byte{}, lay.Src...)
@@ -285,6 +285,29 @@ func TestInsertedMalformedStatement(t *testing.T) {
 		}
 		harness.Class("malformed=" + m)
 	})
+}
+
+// phpModeAt reports whether text inserted at offset at of the error-free source is read as PHP code: the
+// last token (free-floating tokens included) that ends at or before the offset must exist and be neither
+// inline HTML nor a token that carries a close tag ("?>" standing for ';', a line comment ended by "?>").
+func phpModeAt(root ast.Vertex, at int) bool {
+	var last *token.Token
+	for _, t := range astx.FlatTokens(root) {
+		if t.Position == nil || len(t.Value) == 0 {
+			continue
+		}
+		if t.Position.EndPos <= at {
+			last = t
+		}
+	}
+	if last == nil || last.ID == token.T_INLINE_HTML {
+		return false
+	}
+	if last.ID == token.T_COMMENT && last.Position.StartPos == 0 && bytes.HasPrefix(last.Value, []byte("#!")) {
+		return false // the shebang line: HTML follows
+	}
+	v := bytes.TrimRight(last.Value, "\r\n")
+	return !bytes.HasSuffix(v, []byte("?>"))
 }
 
 // endOfList returns the offset of the token that closes the list owned by n (or the end of input for the root).
